@@ -26,6 +26,14 @@ mod helpx {
     pub struct H(pub u32);
     impl Drop for H { fn drop(&mut self) { HDROPS.with(|d| d.borrow_mut().push(self.0)); } }
     impl Clone for H { fn clone(&self) -> H { tick(); H(fresh()) } }
+    // a one-byte element with a destructor (map_in_place to a smaller type); identity modulo 256 is
+    // not unique, so it is counted like the zero-sized one
+    pub struct Small(pub u8);
+    impl Drop for Small { fn drop(&mut self) { ZDROP.with(|d| d.set(d.get() + 1)); } }
+    fn fresh_small() -> u8 { ZBORN.with(|b| b.set(b.get() + 1)); 1 }
+    pub trait Elem { type Smaller; fn smaller() -> Self::Smaller; }
+    impl Elem for H { type Smaller = Small; fn smaller() -> Small { Small(fresh_small()) } }
+    impl Elem for Z0 { type Smaller = Z0; fn smaller() -> Z0 { z0() } }
     // zero-sized twin: identity cannot be stored, births and drops are counted
     pub struct Z0;
     thread_local! { static ZBORN: Cell<u64> = const { Cell::new(0) }; static ZDROP: Cell<u64> = const { Cell::new(0) }; }
@@ -66,7 +74,7 @@ mod helpx {
     pub fn gen_params(r: &mut Rng) -> Params {
         let n = match r.below(5) { 0 => 0usize, 1 => 1, _ => r.range(2, 40) as usize };
         let fuse: i64 = if r.coin(1, 2) { r.below(n as u64 + 2) as i64 } else { -1 };
-        let which = r.below(12);
+        let which = r.below(22);
         let zst = r.coin(1, 4);
         let chunk = if r.coin(1, 2) { 512 } else { 4096 };
         let pre = r.below(5);
@@ -79,17 +87,20 @@ mod helpx {
         let mut notes: Vec<String> = vec![];
         HDROPS.with(|d| d.borrow_mut().clear()); BORN.with(|b| b.borrow_mut().clear());
         ZBORN.with(|b| b.set(0)); ZDROP.with(|d| d.set(0));
-        let (n, fuse, which, zst, lo, lie_len) = (p.n, p.fuse, p.which.min(11), p.zst, p.lo, p.lie_len);
+        let (n, fuse, which, zst, lo, lie_len) = (p.n, p.fuse, p.which.min(21), p.zst, p.lo, p.lie_len);
         let mut bump: Bump = Bump::with_size(p.chunk.max(64));
         // something allocated before, so that positions are not at the start
         for _ in 0..p.pre { bump.alloc(7u8); }
         let what = ["alloc_slice_clone", "alloc_slice_fill", "alloc_slice_fill_with", "alloc_slice_move(Vec)", "alloc_with", "alloc_iter", "alloc_iter(lying hint)",
-                    "alloc_iter_exact", "alloc_iter_exact(lying len)", "alloc_iter_mut", "alloc_iter_mut_rev", "alloc_iter_mut(lying hint)"][which as usize];
+                    "alloc_iter_exact", "alloc_iter_exact(lying len)", "alloc_iter_mut", "alloc_iter_mut_rev", "alloc_iter_mut(lying hint)",
+                    "BumpBox::map_in_place(to zero-sized)", "BumpBox::map_in_place(same size)", "BumpBox::map_in_place(to smaller)", "BumpVec::map_in_place(to zero-sized)",
+                    "BumpVec::map(to larger)", "FixedBumpVec::map_in_place(same size)",
+                    "alloc_uninit_slice.init_fill_iter", "alloc_uninit_slice.init_fill_iter(too short)", "alloc_uninit_slice.init_move(Vec)", "alloc_uninit_slice.init_move(wrong length)"][which as usize];
         let tag = format!("{what} n={n} fuse={fuse} zst={zst}");
         let before = positions(&bump);
-        let is_mut = which >= 9;
+        let is_mut = (9..=11).contains(&which);
         macro_rules! run {
-            ($mk:expr, $idof:expr) => {{
+            ($t:ty, $mk:expr, $idof:expr) => {{
                 // $mk: fresh element; $idof: identity (0 for the zero-sized type)
                 let src: Vec<_> = (0..n).map(|_| $mk).collect();
                 let src_ids: Vec<u32> = src.iter().map($idof).collect();
@@ -109,12 +120,31 @@ mod helpx {
                                let got: Vec<u32> = b.iter().map($idof).collect(); want.truncate(got.len().max(if lie_len < n { lie_len } else { n })); (got, want) }
                         9 => { let mut want = vec![]; let b = bump.alloc_iter_mut((0..n).map(|_| { tick(); let e = $mk; want.push(($idof)(&e)); e })); (b.iter().map($idof).collect(), want) }
                         10 => { let mut want = vec![]; let b = bump.alloc_iter_mut_rev((0..n).map(|_| { tick(); let e = $mk; want.push(($idof)(&e)); e })); want.reverse(); (b.iter().map($idof).collect(), want) }
+                        12..=17 => {
+                            // map variants: the source elements are consumed one by one by the closure (which may panic
+                            // before or after it made the new value); identities of the results are fresh
+                            use bump_scope::{BumpVec, FixedBumpVec};
+                            let srcb = bump.alloc_slice_fill_with(n, || $mk);
+                            match which {
+                                12 => { let b = srcb.map_in_place(|e| { drop(e); tick(); z0() }); (vec![0; b.len()], vec![]) }
+                                13 => { let b = srcb.map_in_place(|e| { tick(); drop(e); $mk }); (b.iter().map($idof).collect(), vec![]) }
+                                14 => { let b = srcb.map_in_place(|e| { tick(); drop(e); <$t as Elem>::smaller() }); (vec![0; b.len()], vec![]) }
+                                15 => { let mut v: BumpVec<_, &Bump> = BumpVec::new_in(&bump); v.append(srcb); let w = v.map_in_place(|e| { drop(e); tick(); z0() }); (vec![0; w.len()], vec![]) }
+                                16 => { let mut v: BumpVec<_, &Bump> = BumpVec::new_in(&bump); v.append(srcb); let w = v.map(|e| { tick(); (e, 7u64, $mk) }); (vec![0; w.len()], vec![]) }
+                                _ => { let mut v: FixedBumpVec<_> = FixedBumpVec::with_capacity_in(n, &bump); v.append(srcb); let w = v.map_in_place(|e| { tick(); drop(e); $mk }); (w.iter().map($idof).collect(), vec![]) }
+                            }
+                        }
+                        18 => { let mut want = vec![]; let b = bump.alloc_uninit_slice::<$t>(n).init_fill_iter((0..n + 3).map(|_| { tick(); let e = $mk; want.push(($idof)(&e)); e })); want.truncate(n); (b.iter().map($idof).collect(), want) }
+                        19 => { let b = bump.alloc_uninit_slice::<$t>(n + 2).init_fill_iter((0..n).map(|_| { tick(); $mk })); (b.iter().map($idof).collect(), vec![]) }
+                        20 => { let v: Vec<$t> = (0..n).map(|_| $mk).collect(); let want: Vec<u32> = v.iter().map($idof).collect(); let b = bump.alloc_uninit_slice::<$t>(n).init_move(v); (b.iter().map($idof).collect(), want) }
+                        21 => { let v: Vec<$t> = (0..n + 1).map(|_| $mk).collect(); let b = bump.alloc_uninit_slice::<$t>(n).init_move(v); (b.iter().map($idof).collect(), vec![]) }
                         _ => { let mut want = vec![]; let b = bump.alloc_iter_mut(Lying { it: (0..n).map(|_| { tick(); let e = $mk; want.push(($idof)(&e)); e }), lo, hi: Some(lo) }); (b.iter().map($idof).collect(), want) }
                     }
                 }));
                 FUSE.with(|f| f.set(-1));
                 match &res {
                     Ok((got, want)) => {
+                        if which == 19 || which == 21 { notes.push(format!("helpers: {tag} did not panic although the source has the wrong number of elements")); }
                         if !want.is_empty() && !zst && got != want { notes.push(format!("helpers: contents of {tag}: got {got:?}, expected {want:?}")); }
                         if matches!(which, 0 | 1 | 2) && got.len() != n { notes.push(format!("helpers: {tag} returned {} elements", got.len())); }
                         // a lying ExactSizeIterator: a sized element type gets at most the claimed length; for a zero-sized
@@ -123,7 +153,7 @@ mod helpx {
                         if which == 8 && zst && got.len() > n { notes.push(format!("helpers: {tag} returned {} elements from an iterator that yields {n}", got.len())); }
                     }
                     Err(_) => {
-                        if fuse < 0 { notes.push(format!("helpers: {tag} panicked although nothing was scripted to")); }
+                        if fuse < 0 && which != 19 && which != 21 { notes.push(format!("helpers: {tag} panicked although nothing was scripted to")); }
                         if is_mut && positions(&bump) != before { notes.push(format!("helpers: position moved: {tag} unwound and left a bump position changed ({:?} -> {:?})", before, positions(&bump))); }
                     }
                 }
@@ -131,12 +161,14 @@ mod helpx {
                 let _ = src_ids;
             }};
         }
-        if zst { run!(z0(), |_e: &Z0| 0u32); } else { run!(H(fresh()), |e: &H| e.0); }
+        if zst { run!(Z0, z0(), |_e: &Z0| 0u32); } else { run!(H, H(fresh()), |e: &H| e.0); }
         // everything that was born has been dropped exactly once by now
         if zst {
             let (b, d) = (ZBORN.with(|x| x.get()), ZDROP.with(|x| x.get()));
             if b != d { notes.push(format!("helpers: {tag}: {b} zero-sized elements came into existence, {d} were dropped (lost or dropped twice)")); }
         } else {
+            let (zb, zd) = (ZBORN.with(|x| x.get()), ZDROP.with(|x| x.get()));
+            if zb != zd { notes.push(format!("helpers: {tag}: {zb} mapped (zero-sized / one-byte) elements came into existence, {zd} were dropped (lost or dropped twice)")); }
             let mut born = BORN.with(|b| b.borrow().clone()); born.sort();
             let mut dropped = HDROPS.with(|d| d.borrow().clone()); dropped.sort();
             if born != dropped {
